@@ -4,6 +4,7 @@ package main
 
 import (
 	"fmt"
+	"go/token"
 	"go/types"
 
 	"golang.org/x/tools/go/ssa"
@@ -126,6 +127,8 @@ func runC07(p *Prog, r *Report) {
 	ruleBisect(p, r, le)
 	ruleSortedList(p, r, le, "shaping", "pairedDelims", 60)
 	ruleSortedRanges(p, r, le, "language", "ScriptRanges", "Start", "End", 900)
+	r.Explain = append(r.Explain, "R-BIDI/par: bidi.Paragraph.SetString stops at the first paragraph separator (class B) and returns the bytes consumed; every caller in the module uses that count, or cuts the text at the separators itself (it, or its caller, compares the bidi class of a rune with bidi.B): the text after a newline gets its own levels instead of inheriting the direction of the run before.")
+	ruleBidiParagraphs(p, r, 1)
 	r.Assumptions = append(r.Assumptions, "golang.org/x/text/unicode/bidi.Paragraph.SetString is the documented full reset of the bidi object (not analysed)")
 	r.NotDecided = append(r.NotDecided, "exact cover of the range by the runs, level parity, script uniformity, face resolution, language/script compatibility")
 }
@@ -139,4 +142,77 @@ func controlsFrame(cp *Prog, r *Report) {
 		ruleSortedList(cp, cr, le, "tab", "listGood", 2)
 		ruleSortedList(cp, cr, le, "tab", "listBad", 2)
 	}, "tab.listBad")
+}
+
+// ruleBidiParagraphs — R-BIDI/par: bidi.Paragraph.SetString / SetBytes stop at the first paragraph separator (class B) and
+// return the number of bytes they consumed. A caller that ignores that count processes one paragraph only, unless it cuts the
+// text at the separators itself: the function calling SetString, or one of its callers in the module, compares the bidi
+// class of a rune with bidi.B.
+func ruleBidiParagraphs(p *Prog, r *Report, floor int) {
+	const rule = "R-BIDI/par"
+	isSet := func(sc *ssa.Function) bool {
+		if sc == nil {
+			return false
+		}
+		s := sc.String()
+		return s == "(*golang.org/x/text/unicode/bidi.Paragraph).SetString" || s == "(*golang.org/x/text/unicode/bidi.Paragraph).SetBytes"
+	}
+	// functions which compare a bidi class with B
+	cutsAtB := func(f *ssa.Function) bool {
+		for _, b := range f.Blocks {
+			for _, in := range b.Instrs {
+				bo, ok := in.(*ssa.BinOp)
+				if !ok || (bo.Op != token.EQL && bo.Op != token.NEQ) {
+					continue
+				}
+				for _, pair := range [][2]ssa.Value{{bo.X, bo.Y}, {bo.Y, bo.X}} {
+					c, ok := pair[1].(*ssa.Const)
+					if !ok || c.Type().String() != "golang.org/x/text/unicode/bidi.Class" {
+						continue
+					}
+					if v, isInt := intConst(c); !isInt || v != 7 { // bidi.B
+						continue
+					}
+					if call, ok := pair[0].(*ssa.Call); ok {
+						if sc := call.Common().StaticCallee(); sc != nil && sc.String() == "(golang.org/x/text/unicode/bidi.Properties).Class" {
+							return true
+						}
+					}
+				}
+			}
+		}
+		return false
+	}
+	n := 0
+	for _, f := range p.ModFns() {
+		for _, b := range f.Blocks {
+			for _, in := range b.Instrs {
+				call, ok := in.(*ssa.Call)
+				if !ok || !isSet(call.Common().StaticCallee()) {
+					continue
+				}
+				n++
+				key := p.FnName(f) + "/SetString"
+				r.Instance(rule, key)
+				used := false
+				if refs := call.Referrers(); refs != nil {
+					for _, u := range *refs {
+						if ex, ok := u.(*ssa.Extract); ok && ex.Index == 0 && ex.Referrers() != nil && len(*ex.Referrers()) > 0 {
+							used = true
+						}
+					}
+				}
+				cuts := cutsAtB(f)
+				if node := p.CG().Nodes[f]; node != nil && !cuts {
+					for _, e := range node.In {
+						if p.inModule(fnPkg(e.Caller.Func)) && cutsAtB(e.Caller.Func) {
+							cuts = true
+						}
+					}
+				}
+				r.Check(used || cuts, rule, key, p.IPos(call), "the count of bytes consumed by the bidi paragraph is used, or the text is cut at the paragraph separators (class B) before it is handed over: what follows the first separator is processed too")
+			}
+		}
+	}
+	r.Floor(rule, n, floor)
 }
